@@ -83,12 +83,13 @@ func (n *abciNode) open() {
 	app := simapp.NewSimApp(log.NewNopLogger(), n.db, nil, true,
 		simapp.DepinjectOptions{Config: e2e.AppConfig,
 			Providers: []interface{}{tokenkeeper.ProvideMockEVM(), tokenkeeper.ProvideMockICS20()},
-			Consumers: []interface{}{&n.mk, &n.sk, &n.ok}},
+			Consumers: []interface{}{&n.mk, &n.sk, &n.ok, &n.tk}},
 		opts, baseapp.SetChainID(abciChainID))
 	if n.e == nil {
 		n.e = &lib.Env{Blockers: lib.IrisModules}
 	}
 	n.e.App = app
+	n.configureSwapRegistry()
 }
 
 func newABCINode(onDisk bool, start time.Time) *abciNode {
